@@ -17,7 +17,24 @@ explicit, literal tables that say how the things outside the subset are to be re
                                                    e.g. 'self.session.send(Opcode.PING, data)' -> 'pass'
   records  {constructor expression text: its __init__}   `frame = self._frame_class(op, fin=fin, ..)`
   structs  {callee text: field widths}            `_pack16 = struct.Struct(b'!BBH').pack` -> [1, 1, 2]
-  tables   {python name: Lean term}               'reserved_opcodes' -> Lomond.Gen.reservedOpcodes
+  tables   {python expression text: Lean term}    'reserved_opcodes' -> Lomond.Gen.reservedOpcodes (a list),
+                                                   'Status.invalid_codes' -> ('ranges', Lomond.Gen.invalidCodeRanges)
+  consts   {python expression text: (Lean term, type)}    'Opcode.TEXT' -> (Lomond.Gen.opText, Nat): a named
+                                                   constant whose value is a generated table entry
+  methods  {callee text: [(generated def, [leading argument texts])]}   `response.get(k, d)` ->
+                                                   responseGetStr / responseGetOpt (response.headers, k, d): the
+                                                   first candidate whose parameter types fit the arguments
+                                                   exactly; missing trailing arguments from the Python defaults
+  externs  {python expression text: (function parameter, [argument texts], exception class or None)}
+                                                   'int(_wbits)' -> (int_, ['_wbits'], 'ValueError'): a call of
+                                                   something outside the subset (int(), a codec) is a call of a
+                                                   *function parameter* of the generated definition; with an
+                                                   exception class the parameter returns an Option (none = raised)
+  unstructs {callee text: field widths}           `cls._unpack16 = struct.Struct(b'!H').unpack` -> [2]
+  locals   {local variable: type}                 a local that holds None on one path and a value on another
+  trace    [parameter, ..]                        reads (code i) and writes (code 10 + i) of the attributes bound
+                                                   to these parameters are recorded, in execution order, in a
+                                                   list returned as the last component of the result
   prefix / result : statement text put before / expression text returned after the statements
   outputs  variables whose final value is returned together with the return value
 
@@ -69,7 +86,19 @@ ACCEPTED PYTHON                                   LEAN
     calls on the module logger `log.<level>(..)` (dropped) ; a call listed in `calls` as a statement
     (if the callee can raise, its error is propagated)
   raise [mod.]Cls('text') / Cls('text'.format(..)) Except.error (Py.Err.mk "Cls" "text")  -- the whole
-                                                   definition then has type Except Py.Err T
+    / errors.Cls('text', args..)                   definition then has type Except Py.Err T (lomond's
+                                                   WebSocketError formats its first argument itself)
+  x = f(..) with f a generated def that can raise  match f .. with | .error e => .error e | .ok x => ..
+  str (type Str = code points, List Nat): 'literal', a == b, a != b, s.lower()
+                                                   Py.str "literal", decide (a = b), Py.strLower s  (see below)
+  dict str -> str (type Dict = association list, first entry of a key counts): d.get(k), d.get(k, default),
+    k in d                                         Py.dictGet? d k, (Py.dictGet? d k).getD default, Py.dictHas d k
+  None as a value; o == n, o != n (o : Option number)   none; None is different from every number
+  x in TABLE with x an Option Nat                  false for None
+  b[:n], b[n:]  (b : Bytes, n a literal >= 0)      b.take n, b.drop n
+  (x,) = cls._unpackN(b)  listed in `unstructs`    x = Py.unpack1 w b  (big-endian value; len(b) = w assumed)
+  try: x = EXTERN(..)                              match extern .. with | none => <handler> | some x => <rest>
+  except Cls: raise ..                             only for a call declared in `externs` with exactly this Cls
   statements after an `if` are duplicated into both branches (continuation style); falling off the
   end is `return None` (type Unit).  All `return`s of a site must have the same type.
 
@@ -77,15 +106,20 @@ ASSUMPTIONS OF A SITE (part of the tie, exercised by harness/gencheck.py through
 a parameter declared Nat stands for a Python int >= 0 or an integer-valued float (times are ticks,
 DESIGN section 4); where a site says so `None` is passed as 0 (both falsy, the value is only used under
 the truth test); `reason` / `data` declared Bytes are the bytes after the source's isinstance/encode
-step; struct packing assumes the value fits its field.
-Loops, try, with, yield, comprehension, strings, floats, attribute reads that are not bound, calls
-that are not listed: rejected.
+step; struct packing assumes the value fits its field; `s.lower()` is translated as the ASCII mapping,
+which is Python's on the strings these sites see (header text decoded with ('ascii', 'replace'): ASCII
+or U+FFFD; ASCII literals; base64 text); an external function is assumed to raise nothing but the
+declared class; a dict parameter has one entry per key.
+Loops, other forms of try, with, yield, comprehension, other string operations, floats, attribute
+reads that are not bound, calls that are not listed: rejected.
 """
 from __future__ import annotations
 import ast, os, re
 
 NAT, INT, RAT, BOOL, BYTES, UNIT = 'Nat', 'Int', 'Rat', 'Bool', 'Bytes', 'Unit'
+STR, DICT = 'Str', 'Dict'          # str as code points; dict str -> str as an association list
 NUM = [NAT, INT, RAT]
+NONE = ('Option', None)            # the type of the constant None before it meets an Option type
 
 
 def OPT(t):
@@ -96,13 +130,22 @@ def TUP(ts):
     return ('Tuple', tuple(ts))
 
 
+def FN(args, ret):
+    """an external function (int(), a codec, ..) passed to the definition as a parameter"""
+    return ('Fn', tuple(args), ret)
+
+
 class Unsupported(Exception):
     pass
 
 
 def lean_ty(t):
-    if t == BYTES:
+    if t in (BYTES, STR):
         return '(List Nat)'
+    if t == DICT:
+        return 'Py.Dict'
+    if isinstance(t, tuple) and t[0] == 'Fn':
+        return '(' + ' → '.join(lean_ty(x) for x in t[1] + (t[2],)) + ')'
     if isinstance(t, tuple) and t[0] == 'Option':
         return '(Option %s)' % lean_ty(t[1])
     if isinstance(t, tuple) and t[0] == 'Tuple':
@@ -137,13 +180,15 @@ def norm_stmt(text):
 class Def:
     """signature of a generated definition"""
 
-    def __init__(self, name, params, ret, raises):
+    def __init__(self, name, params, ret, raises, defaults=None):
         self.name, self.params, self.ret, self.raises = name, params, ret, raises
+        self.defaults = dict(defaults or {})        # parameter -> default expression text (for `methods`)
 
 
 class Site:
     def __init__(self, name, where, params, stmts, result=None, prefix='', bind=None, calls=None, rewrite=None,
-                 records=None, structs=None, tables=None, outputs=None):
+                 records=None, structs=None, tables=None, outputs=None, consts=None, externs=None, methods=None,
+                 unstructs=None, locals=None, trace=None, defaults=None):
         self.name, self.where, self.params = name, where, list(params)
         body = list(ast.parse(prefix).body) + list(stmts)
         if result is not None:
@@ -154,17 +199,28 @@ class Site:
         self.rewrite = {norm_stmt(k): v for k, v in (rewrite or {}).items()}
         self.records = {norm_expr(k): v for k, v in (records or {}).items()}
         self.structs = {norm_expr(k): v for k, v in (structs or {}).items()}
-        self.tables = dict(tables or {})
+        self.tables = {norm_expr(k): v for k, v in (tables or {}).items()}
         self.outputs = list(outputs or [])
+        self.consts = {norm_expr(k): v for k, v in (consts or {}).items()}
+        self.externs = {norm_expr(k): (f, [norm_expr(a) for a in args], exc) for k, (f, args, exc) in (externs or {}).items()}
+        self.methods = {norm_expr(k): [(d, [norm_expr(a) for a in lead]) for d, lead in v] for k, v in (methods or {}).items()}
+        self.unstructs = {norm_expr(k): v for k, v in (unstructs or {}).items()}
+        self.locals = dict(locals or {})
+        self.trace = list(trace or [])
+        self.defaults = {k: norm_expr(v) for k, v in (defaults or {}).items()}
 
 
 # =================================================================================================
 # the translator proper: one method per construct
 
+TRACE = '_trace'       # the local that records reads / writes of the attributes listed in Site.trace
+
+
 class Translator:
     def __init__(self, site, defs):
         self.site, self.defs = site, defs
         self.declared = dict(site.params)
+        self.declared.update(site.locals)
         self.used_rewrites = set()
         self.used_binds = set()
         self.result_ty = None           # type of the value of the whole definition (without Except)
@@ -179,12 +235,16 @@ class Translator:
             raise Unsupported('expected statement not found: %s' % sorted(missing)[0])
         self.raising = self.may_raise(stmts)
         env = {p: (lean_name(p), t) for p, t in site.params}
-        body = self.block(stmts, env, '  ')
+        pre = ''
+        if site.trace:
+            env[TRACE] = (lean_name(TRACE), BYTES)
+            pre = '  let %s : (List Nat) := []\n' % lean_name(TRACE)
+        body = pre + self.block(stmts, env, '  ')
         ret = self.result_ty if self.result_ty is not None else UNIT      # every path raises
         sig = ' '.join('(%s : %s)' % (lean_name(p), lean_ty(t)) for p, t in site.params)
         rty = 'Except Py.Err %s' % lean_ty(ret) if self.raising else lean_ty(ret)
         text = 'def %s%s : %s :=\n%s\n' % (site.name, (' ' + sig) if sig else '', rty, body)
-        return text, Def(site.name, site.params, ret, self.raising)
+        return text, Def(site.name, site.params, ret, self.raising, site.defaults)
 
     def apply_rewrites(self, stmts):
         out = []
@@ -204,10 +264,15 @@ class Translator:
             for n in ast.walk(s):
                 if isinstance(n, ast.Raise):
                     return True
-                if isinstance(n, ast.Expr) and ast.unparse(n.value) in self.site.calls:
-                    d = self.defs.get(self.site.calls[ast.unparse(n.value)][0])
+                if isinstance(n, ast.expr) and ast.unparse(n) in self.site.calls:
+                    d = self.defs.get(self.site.calls[ast.unparse(n)][0])
                     if d is not None and d.raises:
                         return True
+                if isinstance(n, ast.Call) and ast.unparse(n.func) in self.site.methods:
+                    for name, _ in self.site.methods[ast.unparse(n.func)]:
+                        d = self.defs.get(name)
+                        if d is not None and d.raises:
+                            return True
         return False
 
     # ---- statements (continuation style: `rest` are the statements that follow) -----------------
@@ -230,6 +295,8 @@ class Translator:
             term, t = env[o]
             want = self.declared.get(o, t)
             comps.append((self.coerce(term, t, want), want))
+        if self.site.trace:
+            comps.append(env[TRACE])
         if not comps:
             term, ty = '()', UNIT
         elif len(comps) == 1:
@@ -254,6 +321,9 @@ class Translator:
         a = exc.args[0]
         if isinstance(a, ast.Call) and isinstance(a.func, ast.Attribute) and a.func.attr == 'format':
             a = a.func.value          # 'template'.format(...): the template
+        elif (isinstance(f, ast.Attribute) and ast.unparse(f.value) == 'errors' and isinstance(a, ast.Constant)
+              and isinstance(a.value, str)):
+            pass                      # errors.Cls('template', args..): WebSocketError.__init__ formats; the template
         elif len(exc.args) != 1:
             raise Unsupported('raise `%s`' % ast.unparse(s))
         if cls is None or not (isinstance(a, ast.Constant) and isinstance(a.value, str)):
@@ -286,30 +356,104 @@ class Translator:
         if (isinstance(s.value, ast.Call) and ast.unparse(s.value.func) in self.site.records
                 and isinstance(tgt, ast.Name)):
             return self.s_record(tgt.id, s.value, rest, env, ind)
+        if isinstance(tgt, ast.Tuple):
+            # `(x,) = cls._unpackN(b)`: one big-endian field of a declared struct
+            v = s.value
+            if not (len(tgt.elts) == 1 and isinstance(tgt.elts[0], ast.Name) and isinstance(v, ast.Call)
+                    and ast.unparse(v.func) in self.site.unstructs and len(v.args) == 1 and not v.keywords):
+                raise Unsupported('tuple assignment `%s`' % ast.unparse(s))
+            widths = self.site.unstructs[ast.unparse(v.func)]
+            if len(widths) != 1:
+                raise Unsupported('`%s`: one field expected' % ast.unparse(s))
+            b, bt = self.expr(v.args[0], env)
+            if bt != BYTES:
+                raise Unsupported('`%s`: unpack of a non-Bytes value' % ast.unparse(s))
+            return self.assign(tgt.elts[0], '(Py.unpack1 %d %s)' % (widths[0], b), NAT, rest, env, ind)
+        pre = self.trace_reads(s.value, env, ind)
+        env = pre[1]
+        call = self.raising_call(s.value, env)
+        if call is not None:
+            # x = f(..) where the generated f can raise: its error is propagated
+            term, t = call
+            tmp = 'v'
+            return (pre[0] + ind + '(match %s with\n' % term + ind + '| Except.error e => Except.error e\n'
+                    + ind + '| Except.ok %s =>\n' % tmp + self.assign(tgt, tmp, t, rest, env, ind + '  ') + ')')
         term, t = self.expr(s.value, env)
-        return self.assign(tgt, term, t, rest, env, ind)
+        return pre[0] + self.assign(tgt, term, t, rest, env, ind)
+
+    def raising_call(self, node, env):
+        """(term, value type) if node is a call of a generated definition that can raise, else None"""
+        text = ast.unparse(node)
+        if text in self.site.bind:
+            return None
+        if text in self.site.calls:
+            term, t, d = self.call_def(text, env)
+            return (term, t) if d.raises else None
+        if isinstance(node, ast.Call) and ast.unparse(node.func) in self.site.methods:
+            term, t, d = self.call_method(node, env)
+            return (term, t) if d.raises else None
+        return None
+
+    # ---- trace of reads / writes of the attributes listed in Site.trace ----------------------------
+    def trace_code(self, key, write):
+        return self.site.trace.index(key) + 1 + (10 if write else 0)
+
+    def traced_texts(self):
+        return [k for k, v in self.site.bind.items() if v in self.site.trace]
+
+    def trace_reads(self, node, env, ind):
+        """(lets, env) recording the reads of traced attributes made by evaluating `node`.  Accepted
+        only where the evaluation order is plain: node is the traced expression itself or its
+        negation; a traced read anywhere else in node is rejected."""
+        if not self.site.trace:
+            return '', env
+        x = node
+        while isinstance(x, ast.UnaryOp) and isinstance(x.op, ast.Not):
+            x = x.operand
+        text = ast.unparse(x)
+        if text in self.site.bind and self.site.bind[text] in self.site.trace:
+            return self.trace_append(self.trace_code(self.site.bind[text], False), env, ind)
+        inner = {ast.unparse(n) for n in ast.walk(node)}
+        hit = [k for k in self.traced_texts() if k in inner]
+        if hit:
+            raise Unsupported('traced attribute `%s` is read inside `%s`' % (hit[0], ast.unparse(node)))
+        return '', env
+
+    def trace_append(self, code, env, ind):
+        var = env[TRACE][0]
+        return ind + 'let %s : (List Nat) := (%s ++ [%d])\n' % (var, var, code), env
 
     def s_AugAssign(self, s, rest, env, ind):
         term, t = self.expr(ast.BinOp(left=to_load(s.target), op=s.op, right=s.value), env)
         return self.assign(s.target, term, t, rest, env, ind)
 
     def assign(self, tgt, term, t, rest, env, ind):
+        post = ''
         if isinstance(tgt, ast.Name):
             key = tgt.id
+            if key in self.site.locals:
+                term, t = self.coerce(term, t, self.declared[key]), self.declared[key]
         elif isinstance(tgt, ast.Attribute) and ast.unparse(tgt) in self.site.bind:
             key = self.site.bind[ast.unparse(tgt)]
             self.used_binds.add(ast.unparse(tgt))
             term, t = self.coerce(term, t, self.declared[key]), self.declared[key]
+            if key in self.site.trace:
+                post = self.trace_append(self.trace_code(key, True), env, ind)[0]
         else:
             raise Unsupported('assignment target `%s`' % ast.unparse(tgt))
+        if t == NONE:
+            raise Unsupported('`%s = None` needs a declared Option type' % key)
         env2 = dict(env)
         env2[key] = (lean_name(key), t)
-        return ind + 'let %s : %s := %s\n' % (lean_name(key), lean_ty(t), term) + self.block(rest, env2, ind)
+        return ind + 'let %s : %s := %s\n' % (lean_name(key), lean_ty(t), term) + post + self.block(rest, env2, ind)
 
     def s_record(self, var, call, rest, env, ind):
         """x = Ctor(args): one local `x_field` per constructor parameter that can be translated"""
         init = self.site.records[ast.unparse(call.func)]
-        fields = match_ctor_args(init, call)
+        ignore = []
+        if isinstance(init, tuple):
+            init, ignore = init[0], [norm_stmt(x) for x in init[1]]
+        fields = match_ctor_args(init, call, ignore)
         env2, lets = dict(env), ''
         for name, node in fields:
             try:
@@ -322,6 +466,46 @@ class Translator:
         return lets + self.block(rest, env2, ind)
 
     def s_If(self, s, rest, env, ind):
+        pre, env = self.trace_reads(s.test, env, ind)
+        return pre + self.s_If2(s, rest, env, ind)
+
+    def s_Try(self, s, rest, env, ind):
+        """try: x = EXTERN(..)          match (extern ..) with
+           except Cls: raise ..          | none => <the handler> | some x => <rest>
+        for an external function declared (in Site.externs) to raise exactly Cls"""
+        ok = (len(s.body) == 1 and isinstance(s.body[0], ast.Assign) and len(s.body[0].targets) == 1
+              and isinstance(s.body[0].targets[0], ast.Name) and len(s.handlers) == 1 and not s.orelse and not s.finalbody)
+        if not ok:
+            raise Unsupported('statement `try` of this shape')
+        text = ast.unparse(s.body[0].value)
+        h = s.handlers[0]
+        ext = self.site.externs.get(text)
+        if ext is None or ext[2] is None or h.type is None or ast.unparse(h.type) != ext[2]:
+            raise Unsupported('`try: %s`: not a declared external call with this exception class' % ast.unparse(s.body[0]))
+        if not (len(h.body) == 1 and isinstance(h.body[0], ast.Raise)):
+            raise Unsupported('handler of `try: %s` is not a single raise' % ast.unparse(s.body[0]))
+        term, t = self.extern_call(text, env)
+        if not (isinstance(t, tuple) and t[0] == 'Option'):
+            raise Unsupported('external function of `%s` must return an Option (none = it raised)' % text)
+        t = t[1]
+        return (ind + '(match %s with\n' % term + ind + '| none =>\n' + self.block(list(h.body), env, ind + '  ') + '\n'
+                + ind + '| some v =>\n' + self.assign(s.body[0].targets[0], 'v', t, rest, env, ind + '  ') + ')')
+
+    def extern_call(self, text, env):
+        """(term, result type) of a declared external call; the function is a parameter of the site"""
+        fn, arg_texts, exc = self.site.externs[text]
+        if fn not in env or not (isinstance(env[fn][1], tuple) and env[fn][1][0] == 'Fn'):
+            raise Unsupported('external function %s is not a parameter' % fn)
+        _, argtys, ret = env[fn][1]
+        if len(argtys) != len(arg_texts):
+            raise Unsupported('external function %s takes %d arguments' % (fn, len(argtys)))
+        terms = []
+        for a, want in zip(arg_texts, argtys):
+            term, t = self.expr(ast.parse(a, mode='eval').body, env)
+            terms.append(self.coerce(term, t, want))
+        return '(%s)' % ' '.join([env[fn][0]] + terms), ret
+
+    def s_If2(self, s, rest, env, ind):
         nar = self.narrowing(s.test, env)
         then, other = list(s.body) + list(rest), list(s.orelse) + list(rest)
         if nar:
@@ -385,7 +569,7 @@ class Translator:
             return term
         if t in NUM:
             return '(decide (%s ≠ 0))' % term
-        if t == BYTES:
+        if t in (BYTES, STR):
             return '(!(%s).isEmpty)' % term
         if isinstance(t, tuple) and t[0] == 'Option':
             return '(match %s with | none => false | some v => %s)' % (term, self.truth('v', t[1]))
@@ -419,6 +603,13 @@ class Translator:
             if d.raises:
                 raise Unsupported('`%s` can raise and is used as a value' % text)
             return term, t
+        if text in self.site.consts:
+            self.used_binds.add(text)
+            return self.site.consts[text]
+        if text in self.site.externs:
+            if self.site.externs[text][2] is not None:
+                raise Unsupported('`%s` can raise %s and is used outside `try`' % (text, self.site.externs[text][2]))
+            return self.extern_call(text, env)
         m = getattr(self, 'e_' + type(node).__name__, None)
         if m is None:
             raise Unsupported('expression `%s`' % text)
@@ -432,6 +623,10 @@ class Translator:
             return str(v), NAT
         if isinstance(v, bytes):
             return '([%s] : List Nat)' % ', '.join(str(b) for b in v), BYTES
+        if isinstance(v, str):
+            return '(Py.str %s)' % lean_str(v), STR
+        if v is None:
+            return 'none', NONE
         raise Unsupported('constant `%s`' % ast.unparse(node))
 
     def e_Name(self, node, env):
@@ -495,11 +690,23 @@ class Translator:
                 raise Unsupported('`%s`: is-test on something that is not an Option variable' % ast.unparse(node))
             return '%s.%s' % (env[nar[1]][0], 'isNone' if nar[0] == 'none' else 'isSome'), BOOL
         if len(node.ops) == 1 and isinstance(node.ops[0], ast.In):
-            tbl = node.comparators[0]
-            if not (isinstance(tbl, ast.Name) and tbl.id in self.site.tables):
-                raise Unsupported('`%s`: membership in an undeclared table' % ast.unparse(node))
+            tbl = ast.unparse(node.comparators[0])
             term, t = self.expr(node.left, env)
-            return '(%s.contains %s)' % (self.site.tables[tbl.id], self.cast(term, t, NAT)), BOOL
+            if tbl not in self.site.tables:
+                try:
+                    d, dt = self.expr(node.comparators[0], env)
+                except Unsupported:
+                    dt = None
+                if dt == DICT and t == STR:
+                    return '(Py.dictHas %s %s)' % (d, term), BOOL
+                raise Unsupported('`%s`: membership in an undeclared table' % ast.unparse(node))
+            spec = self.site.tables[tbl]
+            one = ((lambda x: '(Py.inRanges %s %s)' % (spec[1], x)) if isinstance(spec, tuple) and spec[0] == 'ranges'
+                   else (lambda x: '(%s.contains %s)' % (spec, x)))
+            if isinstance(t, tuple) and t[0] == 'Option' and t[1] in (NAT,):
+                # None is not a member of a table of integers
+                return '(match %s with | none => false | some v => %s)' % (term, one('v')), BOOL
+            return one(self.cast(term, t, NAT)), BOOL
         vals = [self.expr(o, env) for o in operands]
         parts = []
         for i, op in enumerate(node.ops):
@@ -509,6 +716,15 @@ class Translator:
                 raise Unsupported('comparison in `%s`' % ast.unparse(node))
             if lt == BOOL and rt == BOOL and sym in '=≠':
                 parts.append('(%s %s %s)' % (l, '==' if sym == '=' else '!=', r))
+                continue
+            if lt == rt and lt in (STR, BYTES) and sym in '=≠':
+                parts.append('(decide (%s %s %s))' % (l, sym, r))
+                continue
+            if sym in '=≠' and isinstance(lt, tuple) and lt[0] == 'Option' and lt[1] in NUM and rt in NUM:
+                # None == n is False, None != n is True
+                j = self.join([lt[1], rt])
+                parts.append('(match %s with | none => %s | some v => (decide (%s %s %s)))' % (
+                    l, 'false' if sym == '=' else 'true', self.cast('v', lt[1], j), sym, self.cast(r, rt, j)))
                 continue
             j = self.join([lt, rt])
             parts.append('(decide (%s %s %s))' % (self.cast(l, lt, j), sym, self.cast(r, rt, j)))
@@ -544,6 +760,29 @@ class Translator:
         if node.keywords:
             raise Unsupported('keyword arguments in `%s`' % ast.unparse(node))
         args = node.args
+        if f in self.site.methods:
+            term, t, d = self.call_method(node, env)
+            if d.raises:
+                raise Unsupported('`%s` can raise and is used as a value' % ast.unparse(node))
+            return term, t
+        if isinstance(node.func, ast.Attribute) and node.func.attr == 'lower' and not args:
+            term, t = self.expr(node.func.value, env)
+            if t != STR:
+                raise Unsupported('`%s`: .lower() of a non-str value' % ast.unparse(node))
+            return '(Py.strLower %s)' % term, STR
+        if isinstance(node.func, ast.Attribute) and node.func.attr == 'get' and len(args) in (1, 2):
+            d, dt = self.expr(node.func.value, env)
+            k, kt = self.expr(args[0], env)
+            if dt != DICT or kt != STR:
+                raise Unsupported('`%s`: .get() on something that is not a dict with a str key' % ast.unparse(node))
+            dflt, ft = self.expr(args[1], env) if len(args) == 2 else ('none', NONE)
+            if ft == STR:
+                return '((Py.dictGet? %s %s).getD %s)' % (d, k, dflt), STR
+            if ft == NONE:
+                return '(Py.dictGet? %s %s)' % (d, k), OPT(STR)
+            if ft == OPT(STR):
+                return '(match (Py.dictGet? %s %s) with | some v => some v | none => %s)' % (d, k, dflt), OPT(STR)
+            raise Unsupported('`%s`: default of .get() must be a str or None' % ast.unparse(node))
         if f in self.site.structs:
             widths = self.site.structs[f]
             if len(widths) != len(args):
@@ -588,6 +827,61 @@ class Translator:
             terms.append(self.coerce(term, t, want))
         return '(%s)' % ' '.join([name] + terms), d.ret, d
 
+    def call_method(self, node, env):
+        """`obj.m(args)` for a callee listed in Site.methods: the first candidate definition whose
+        parameter types fit (leading arguments from the table, missing trailing ones from the
+        Python defaults of the definition)"""
+        f = ast.unparse(node.func)
+        why = 'no candidate'
+        for name, lead in self.site.methods[f]:
+            d = self.defs.get(name)
+            if d is None:
+                why = 'generated definition %s is not available' % name
+                continue
+            try:
+                given = [ast.parse(a, mode='eval').body for a in lead] + list(node.args)
+                if len(given) > len(d.params):
+                    raise Unsupported('too many arguments')
+                terms = []
+                for i, (pname, want) in enumerate(d.params):
+                    if i < len(given):
+                        a = given[i]
+                    elif pname in d.defaults:
+                        a = ast.parse(d.defaults[pname], mode='eval').body
+                    else:
+                        raise Unsupported('argument %s missing' % pname)
+                    term, t = self.expr(a, env)
+                    terms.append(self.coerce_arg(term, t, want))
+                return '(%s)' % ' '.join([name] + terms), d.ret, d
+            except Unsupported as e:
+                why = '%s: %s' % (name, e)
+        raise Unsupported('`%s`: %s' % (ast.unparse(node), why))
+
+    def coerce_arg(self, term, t, want):
+        """argument passing: the type must already be the parameter's (None fits any Option);
+        no wrapping in `some`, so that overloads on str / Optional[str] stay apart"""
+        if t == want:
+            return term
+        if t == NONE and isinstance(want, tuple) and want[0] == 'Option':
+            return 'none'
+        if t in NUM and want in NUM:
+            return self.cast(term, t, want)
+        raise Unsupported('a %s where %s is expected' % (lean_ty(t) if t != NONE else 'None', lean_ty(want)))
+
+    def e_Subscript(self, node, env):
+        """b[:n] / b[n:] for Bytes b and a literal n >= 0"""
+        term, t = self.expr(node.value, env)
+        sl = node.slice
+        if t != BYTES or not isinstance(sl, ast.Slice) or sl.step is not None:
+            raise Unsupported('subscript `%s`' % ast.unparse(node))
+        def lit(x):
+            return isinstance(x, ast.Constant) and isinstance(x.value, int) and not isinstance(x.value, bool) and x.value >= 0
+        if sl.lower is None and lit(sl.upper):
+            return '(%s.take %d)' % (term, sl.upper.value), BYTES
+        if sl.upper is None and lit(sl.lower):
+            return '(%s.drop %d)' % (term, sl.lower.value), BYTES
+        raise Unsupported('subscript `%s`' % ast.unparse(node))
+
     # ---- numeric tower ---------------------------------------------------------------------------
     def join(self, types):
         if any(t not in NUM for t in types):
@@ -611,6 +905,8 @@ class Translator:
         """cast, or wrap in `some` when an Option is wanted"""
         if t == to:
             return term
+        if t == NONE and isinstance(to, tuple) and to[0] == 'Option':
+            return 'none'
         if isinstance(to, tuple) and to[0] == 'Option' and not (isinstance(t, tuple) and t[0] == 'Option'):
             return '(some %s)' % self.coerce(term, t, to[1])
         return self.cast(term, t, to)
@@ -638,14 +934,19 @@ def to_load(target):
     return node
 
 
-def match_ctor_args(init, call):
+def match_ctor_args(init, call, ignore=()):
     """[(parameter, argument expression or default)] of `Ctor(...)` against `def __init__(self, ...)`,
-    after checking that __init__ only stores its parameters (`self.p = p`)"""
+    after checking that __init__ only stores its parameters (`self.p = p`), apart from the
+    statements listed in `ignore` (each must be present)"""
     a = init.args
     if a.vararg or a.kwarg or a.kwonlyargs or a.posonlyargs:
         raise Unsupported('constructor signature of %s' % init.name)
     params = [x.arg for x in a.args][1:]
     stores = [ast.unparse(s) for s in init.body if not (isinstance(s, ast.Expr) and isinstance(s.value, ast.Constant))]
+    for x in ignore:
+        if x not in stores:
+            raise Unsupported('__init__ of %s no longer contains `%s`' % (ast.unparse(call.func), x))
+        stores.remove(x)
     if sorted(stores) != sorted('self.%s = %s' % (p, p) for p in params):
         raise Unsupported('__init__ does more than store its parameters')
     defaults = dict(zip(params[len(params) - len(a.defaults):], a.defaults))
@@ -723,6 +1024,32 @@ def struct_widths(cls_node, attr):
     return [{'B': 1, 'H': 2, 'Q': 8}[c] for c in fmt[1:]]
 
 
+def unstruct_widths(cls_node, attr):
+    """`attr = struct.Struct(b'!H').unpack` in the class body -> [2]"""
+    s = assign_to(cls_node.body, attr, cls_node.name)
+    v = s.value
+    ok = (isinstance(v, ast.Attribute) and v.attr == 'unpack' and isinstance(v.value, ast.Call)
+          and ast.unparse(v.value.func) == 'struct.Struct' and len(v.value.args) == 1
+          and isinstance(v.value.args[0], ast.Constant) and isinstance(v.value.args[0].value, (bytes, str)))
+    if not ok:
+        raise Unsupported('%s.%s is not struct.Struct(<literal>).unpack' % (cls_node.name, attr))
+    fmt = v.value.args[0].value
+    fmt = fmt.decode() if isinstance(fmt, bytes) else fmt
+    if not fmt.startswith('!') or any(c not in 'BHQ' for c in fmt[1:]):
+        raise Unsupported('struct format %r' % fmt)
+    return [{'B': 1, 'H': 2, 'Q': 8}[c] for c in fmt[1:]]
+
+
+def prop_returns(cls_node, name, text):
+    """the property `name` of the class is exactly `return <text>`"""
+    body = [ast.unparse(s) for s in body_of(method(cls_node, name))]
+    require(body == ['return ' + norm_expr(text)], '%s.%s is no longer `return %s`' % (cls_node.name, name, text))
+
+
+def index_of(stmts, pred, what):
+    return only([k for k, s in enumerate(stmts) if pred(s)], what)
+
+
 def require(cond, what):
     if not cond:
         raise Unsupported(what)
@@ -731,7 +1058,11 @@ def require(cond, what):
 def build_sites(repo):
     """[(name, thunk)]: each thunk returns a Site or raises Unsupported.  Order = order in Code.lean
     (a definition may call the ones before it)."""
-    T = {n: parse_file(repo, n + '.py') for n in ('frame', 'frame_parser', 'opcode', 'session', 'persist', 'websocket', 'compression')}
+    T = {n: parse_file(repo, n + '.py') for n in ('frame', 'frame_parser', 'opcode', 'session', 'persist', 'websocket', 'compression',
+                                                          'message', 'parser', 'response')}
+    OPC = {'Opcode.' + k: ('Lomond.Gen.' + v, NAT) for k, v in (
+        ('CONTINUATION', 'opContinuation'), ('TEXT', 'opText'), ('BINARY', 'opBinary'), ('CLOSE', 'opClose'),
+        ('PING', 'opPing'), ('PONG', 'opPong'))}
     FIELDS = [('fin', NAT), ('rsv1', NAT), ('rsv2', NAT), ('rsv3', NAT), ('opcode', NAT)]
     SELF_FIELDS = {'self.' + n: n for n, _ in FIELDS}
     SELF_FIELDS['self.payload'] = 'payload'
@@ -891,6 +1222,74 @@ def build_sites(repo):
         return checks_site('parseChecksCompressed', 'compressedFrameValidate',
                            'frame_parser.py FrameParser.parse: the same statements after enable_compression() (self._frame_class is CompressedFrame)')
 
+    def frame_prop(lean, prop):
+        return Site(lean, 'frame.py Frame.%s' % prop, [('opcode', NAT)], body_of(method(frame_cls(), prop)),
+                    bind=SELF_FIELDS, consts=OPC)
+
+    @site('frameIsText')
+    def _():
+        return frame_prop('frameIsText', 'is_text')
+
+    @site('frameIsContinuation')
+    def _():
+        return frame_prop('frameIsContinuation', 'is_continuation')
+
+    PARSER_STATE = {'self._is_text': 'is_text', 'self._is_compressed': 'is_compressed', 'self._compression': 'compression'}
+
+    @site('parseReadText')
+    def _():
+        fp = klass(T['frame_parser'], 'FrameParser')
+        pc = klass(T['parser'], 'Parser')
+        for a, c in (('read', '_ReadBytes'), ('read_utf8', '_ReadUtf8')):
+            require(ast.unparse(assign_to(pc.body, a, 'Parser').value) == c, 'Parser.%s is no longer %s' % (a, c))
+        require(ast.unparse(method(klass(T['parser'], '_ReadUtf8'), 'validate').body[-1].body[0]) == "raise ParseError('invalid utf8')",
+                '_ReadUtf8.validate no longer raises ParseError on an invalid chunk')
+        return Site('parseReadText', 'frame_parser.py FrameParser.read_text: which awaitable reads a text payload (1 = read: raw bytes, 2 = read_utf8: validated while read)',
+                    [('compression', BOOL), ('is_compressed', BOOL)], body_of(method(fp, 'read_text')), bind=PARSER_STATE,
+                    rewrite={'return self.read(length)': 'return 1',
+                             'return self.read_utf8(length, self._utf8_validator)': 'return 2'})
+
+    @site('parseReader')
+    def _():
+        body = parse_loop()
+        j = index_of(body, lambda s: isinstance(s, ast.If) and ast.unparse(s.test) == 'self.validate', '`if self.validate:` in FrameParser.parse')
+        a = index_of(body, lambda s: isinstance(s, ast.If) and ast.unparse(s.test) == 'frame.is_text', '`if frame.is_text:` in FrameParser.parse')
+        b = index_of(body, lambda s: isinstance(s, ast.If) and ast.unparse(s.test) == 'payload_length', '`if payload_length:` in FrameParser.parse')
+        require(j + 1 == a and a + 1 == b and [ast.unparse(x) for x in body[b + 1:]] == ['self.on_frame(frame)', 'yield frame'],
+                'FrameParser.parse no longer ends with: validation, `if frame.is_text:`, `if payload_length:`, on_frame, yield')
+        return Site('parseReader', 'frame_parser.py FrameParser.parse: `if frame.is_text:` and `if payload_length:`; result = (payload reader: 0 none, 1 read, 2 read_utf8; self._is_text, self._is_compressed afterwards)',
+                    [('opcode', NAT), ('rsv1', NAT), ('payload_length', NAT), ('is_text', BOOL), ('is_compressed', BOOL), ('compression', BOOL)],
+                    body[a:b + 1], prefix='reader = 0', outputs=['reader', 'is_text', 'is_compressed'],
+                    bind=dict(PARSER_STATE, **{'frame.opcode': 'opcode', 'frame.rsv1': 'rsv1'}),
+                    calls={'frame.is_text': ('frameIsText', ['frame.opcode']),
+                           'frame.is_continuation': ('frameIsContinuation', ['frame.opcode']),
+                           'self.read_text(payload_length)': ('parseReadText', ['self._compression', 'self._is_compressed'])},
+                    rewrite={'frame.payload = yield self.read_text(payload_length)': 'reader = self.read_text(payload_length)',
+                             'frame.payload = yield self.read(payload_length)': 'reader = 1'})
+
+    @site('parserOnFrame')
+    def _():
+        fp = klass(T['frame_parser'], 'FrameParser')
+        return Site('parserOnFrame', 'frame_parser.py FrameParser.on_frame; result = (the UTF-8 validator was reset, self._is_text afterwards)',
+                    [('compression', BOOL), ('is_compressed', BOOL), ('is_text', BOOL), ('fin', NAT), ('opcode', NAT)],
+                    body_of(method(fp, 'on_frame')), prefix='reset = False', outputs=['reset', 'is_text'],
+                    bind=dict(PARSER_STATE, **{'frame.fin': 'fin', 'frame.opcode': 'opcode'}),
+                    calls={'frame.is_text': ('frameIsText', ['frame.opcode']),
+                           'frame.is_continuation': ('frameIsContinuation', ['frame.opcode']),
+                           'frame.is_control': ('frameIsControl', ['frame.opcode'])},
+                    rewrite={'self._utf8_validator.reset()': 'reset = True'})
+
+    @site('clientOnFrameGuard')
+    def _():
+        c = klass(T['frame_parser'], 'ClientFrameParser')
+        require([ast.unparse(b) for b in c.bases] == ['FrameParser'], 'ClientFrameParser must derive from FrameParser only')
+        require([n.name for n in c.body if isinstance(n, ast.FunctionDef)] == ['on_frame'], 'ClientFrameParser overrides more than on_frame')
+        body = body_of(method(c, 'on_frame'))
+        require(ast.unparse(body[-1]) == 'super(ClientFrameParser, self).on_frame(frame)', 'ClientFrameParser.on_frame does not end with the call of FrameParser.on_frame')
+        return Site('clientOnFrameGuard', 'frame_parser.py ClientFrameParser.on_frame: what precedes the call of FrameParser.on_frame',
+                    [('mask', BOOL)], body, bind={'frame.mask': 'mask'},
+                    rewrite={'super(ClientFrameParser, self).on_frame(frame)': 'pass'})
+
     # ---- session.py --------------------------------------------------------------------------------
     def sess(name):
         return body_of(method(klass(T['session'], 'WebsocketSession'), name))
@@ -919,6 +1318,49 @@ def build_sites(repo):
         return Site('sessionCheckCloseTimeout', 'session.py WebsocketSession._check_close_timeout (close_timeout None is passed as 0: both are falsy)',
                     [('close_timeout', NAT), ('session_time', NAT), ('sent_close_time', OPT(NAT))], sess('_check_close_timeout'),
                     bind={'self.websocket.sent_close_time': 'sent_close_time'})
+
+    def ws_cls():
+        return klass(T['websocket'], 'WebSocket')
+
+    def flag_props():
+        """the flags `_check_writable`, `close`, `_on_close` read through properties are the State fields"""
+        prop_returns(ws_cls(), 'is_closing', 'self.state.closing')
+        prop_returns(ws_cls(), 'is_closed', 'self.state.closed')
+
+    @site('sessionCheckWritable')
+    def _():
+        flag_props()
+        return Site('sessionCheckWritable', 'session.py WebsocketSession._check_writable (no_sock = `self._sock is None`)',
+                    [('no_sock', BOOL), ('closed', BOOL), ('closing', BOOL)], sess('_check_writable'),
+                    bind={'self._sock is None': 'no_sock', 'self.websocket.is_closed': 'closed', 'self.websocket.is_closing': 'closing'},
+                    trace=['closed', 'closing'])
+
+    @site('sessionWrite')
+    def _():
+        flag_props()
+        body = sess('write')
+        w = only(body, 'the single statement of WebsocketSession.write')
+        require(isinstance(w, ast.With) and [ast.unparse(i.context_expr) for i in w.items] == ['self._lock']
+                and w.items[0].optional_vars is None, 'WebsocketSession.write is no longer one `with self._lock:` block')
+        return Site('sessionWrite', 'session.py WebsocketSession.write: the statements under `with self._lock:`; result = (_sendall() was called, state.closing afterwards)',
+                    [('no_sock', BOOL), ('closed', BOOL), ('is_closing', BOOL), ('closing', BOOL)], w.body,
+                    prefix='sent = False', outputs=['sent', 'is_closing'],
+                    bind={'self._sock is None': 'no_sock', 'self.websocket.is_closed': 'closed', 'self.websocket.is_closing': 'is_closing',
+                          'self.websocket.state.closing': 'is_closing'},
+                    calls={'self._check_writable()': ('sessionCheckWritable', ['self._sock is None', 'self.websocket.is_closed', 'self.websocket.is_closing'])},
+                    rewrite={'self._sendall(data)': 'sent = True'})
+
+    @site('sessionSendClosing')
+    def _():
+        body = sess('send')
+        calls = [n for s_ in body for n in ast.walk(s_) if isinstance(n, ast.Call) and ast.unparse(n.func) == 'self.write']
+        c = only(calls, 'the call of self.write in WebsocketSession.send')
+        require(len(c.args) == 1 and [k.arg for k in c.keywords] == ['closing'], 'WebsocketSession.send: self.write(<bytes>, closing=..)')
+        fr = assign_to(body, 'frame', 'WebsocketSession.send')
+        require(ast.unparse(fr.value) == 'Frame(opcode, payload=bytearray(data))' and ast.unparse(c.args[0]) == 'frame.to_bytes()',
+                'WebsocketSession.send no longer writes Frame(opcode, payload=bytearray(data)).to_bytes()')
+        return Site('sessionSendClosing', 'session.py WebsocketSession.send: the `closing=` argument of self.write',
+                    [('opcode', NAT)], [ast.Return(value=c.keywords[0].value)], consts=OPC)
 
     @site('proxyDefaultPort')
     def _():
@@ -995,6 +1437,60 @@ def build_sites(repo):
                     rewrite={'self._send_close(code, reason)': 'sent = True', 'self.state.closing = True': 'pass',
                              'self.state.sent_close_time = self.session.session_time': 'pass'})
 
+    WS_FLAGS = {'self.is_closed': 'closed', 'self.is_closing': 'closing', 'self.state.closed': 'closed', 'self.state.closing': 'closing'}
+
+    @site('wsOnDisconnect')
+    def _():
+        fn = method(ws_cls(), 'on_disconnect')
+        require([a.arg for a in fn.args.args] == ['self', 'state'] and [ast.unparse(d) for d in fn.args.defaults] == ['None'],
+                'WebSocket.on_disconnect(self, state=None)')
+        return Site('wsOnDisconnect', 'websocket.py WebSocket.on_disconnect (has_session = `state.session is not None`); result = (session.close() was called, state.closed, state.closing afterwards)',
+                    [('has_session', BOOL), ('closed', BOOL), ('closing', BOOL)], body_of(fn),
+                    prefix='session_closed = False', outputs=['session_closed', 'closed', 'closing'],
+                    bind={'state.session is not None': 'has_session', 'state.closed': 'closed', 'state.closing': 'closing'},
+                    rewrite={'if state is None:\n    state = self.state': 'pass', 'state.session.close()': 'session_closed = True'},
+                    trace=['closed', 'closing'])
+
+    @site('wsOnClose')
+    def _():
+        flag_props()
+        return Site('wsOnClose', 'websocket.py WebSocket._on_close; result = (event yielded: 0 none, 1 Closed, 2 Closing; self.close(message.code, message.reason) was called; state.closed, state.closing as assigned here)',
+                    [('code', OPT(NAT)), ('closed', BOOL), ('closing', BOOL)], ws('_on_close'),
+                    prefix='event = 0\necho = False', outputs=['event', 'echo', 'closed', 'closing'],
+                    bind=dict(WS_FLAGS, **{'message.code': 'code'}),
+                    tables={'Status.invalid_codes': ('ranges', 'Lomond.Gen.invalidCodeRanges')},
+                    rewrite={'yield events.Closed(message.code, message.reason)': 'event = 1',
+                             'yield events.Closing(message.code, message.reason)': 'event = 2',
+                             'self.close(message.code, message.reason)': 'echo = True'},
+                    trace=['closed', 'closing'])
+
+    # ---- response.py / websocket.py: the upgrade reply ---------------------------------------------------
+    def response_get(name, default_ty, defaults):
+        fn = method(klass(T['response'], 'Response'), 'get')
+        require([a.arg for a in fn.args.args] == ['self', 'name', 'default'] and [ast.unparse(d) for d in fn.args.defaults] == ['None'],
+                'Response.get(self, name, default=None)')
+        return Site(name, 'response.py Response.get (default is a %s)' % ('str' if default_ty == STR else 'str or None'),
+                    [('headers', DICT), ('name', STR), ('default', default_ty)], body_of(fn), bind={'self.headers': 'headers'},
+                    rewrite={"assert isinstance(name, six.text_type), 'must be unicode'": 'pass'}, defaults=defaults)
+
+    @site('responseGetStr')
+    def _():
+        return response_get('responseGetStr', STR, {})
+
+    @site('responseGetOpt')
+    def _():
+        return response_get('responseGetOpt', OPT(STR), {'default': 'None'})
+
+    @site('wsOnResponse')
+    def _():
+        return Site('wsOnResponse', 'websocket.py WebSocket.on_response up to the extensions (status_code None = the status line had no integer; challenge = the expected accept value); result = protocol',
+                    [('status_code', OPT(INT)), ('headers', DICT), ('challenge', STR)], ws('on_response'),
+                    bind={'response.status_code': 'status_code', 'response.headers': 'headers',
+                          "b64encode(sha1(self.key + constants.WS_KEY).digest()).decode('ascii')": 'challenge'},
+                    methods={'response.get': [('responseGetStr', ['response.headers']), ('responseGetOpt', ['response.headers'])]},
+                    rewrite={"extensions = self.process_extensions(response.get_list('sec-websocket-extensions'))": 'pass',
+                             'return (protocol, extensions)': 'return protocol'})
+
     @site('wsDefaultPort')
     def _():
         st = assign_to(ws('__init__'), 'self.port', 'WebSocket.__init__')
@@ -1022,6 +1518,97 @@ def build_sites(repo):
                 'Deflate.reset_compressor: zlib.compressobj(level, method, wbits)')
         return Site('deflateCompressorWbits', 'compression.py Deflate.reset_compressor: the wbits argument of zlib.compressobj',
                     [('compress_wbits', NAT)], [ast.Return(value=v.args[2])], bind={'self.compress_wbits': 'compress_wbits'})
+
+    @site('deflateGetWbits')
+    def _():
+        return Site('deflateGetWbits', 'compression.py Deflate.get_wbits (int_ = what `int()` makes of a str; none = ValueError)',
+                    [('options', DICT), ('key', STR), ('int_', FN([STR], OPT(INT)))], deflate('get_wbits'),
+                    externs={'int(_wbits)': ('int_', ['_wbits'], 'ValueError')}, defaults={'int_': 'int_'})
+
+    @site('deflateFromOptions')
+    def _():
+        init = method(klass(T['compression'], 'Deflate'), '__init__')
+        return Site('deflateFromOptions', 'compression.py Deflate.from_options; result = (decompress_wbits, compress_wbits, reset_decompress, reset_compress) of the Deflate object',
+                    [('options', DICT), ('int_', FN([STR], OPT(INT)))], deflate('from_options'),
+                    methods={'cls.get_wbits': [('deflateGetWbits', [])]},
+                    records={'Deflate': (init, ['self.reset_decompressor()', 'self.reset_compressor()'])},
+                    rewrite={'return deflate': 'return (deflate.decompress_wbits, deflate.compress_wbits, deflate.reset_decompress, deflate.reset_compress)'})
+
+    # ---- message.py ------------------------------------------------------------------------------------
+    def msg_build():
+        return body_of(method(klass(T['message'], 'Message'), 'build'))
+
+    @site('messageBuildInflate')
+    def _():
+        body = msg_build()
+        require([ast.unparse(x) for x in body[:2]] == ['first_frame = frames[0]', 'opcode = first_frame.opcode'],
+                'Message.build no longer starts with first_frame = frames[0]; opcode = first_frame.opcode')
+        st = only([x for x in body if isinstance(x, ast.If) and 'decompress' in names_in(x.test)], 'the decompress test of Message.build')
+        return Site('messageBuildInflate', 'message.py Message.build: is the payload inflated (decompress = a decompressor was passed)',
+                    [('rsv1', NAT), ('decompress', BOOL)], [st], result='inflate', bind={'first_frame.rsv1': 'rsv1'},
+                    rewrite={'payload = cls.decompress_frames(frames, decompress)': 'inflate = True',
+                             "payload = b''.join((bytes(frame.payload) for frame in frames))": 'inflate = False'})
+
+    @site('messageBuildKind')
+    def _():
+        body = msg_build()
+        st = body[-1]
+        require(isinstance(st, ast.If) and names_in(st.test) == {'opcode', 'Opcode'}, 'Message.build does not end with the opcode dispatch')
+        m = T['message']
+        for cls_, op in (('Binary', 'BINARY'), ('Text', 'TEXT'), ('Close', 'CLOSE'), ('Ping', 'PING'), ('Pong', 'PONG')):
+            init = [ast.unparse(x) for x in method(klass(m, cls_), '__init__').body]
+            require('super(%s, self).__init__(Opcode.%s)' % (cls_, op) in init, 'message.%s is no longer the message of Opcode.%s' % (cls_, op))
+        require([ast.unparse(x) for x in body_of(method(klass(m, 'Text'), 'from_payload'))[-1:]] == ['return cls(text)'], 'Text.from_payload')
+        return Site('messageBuildKind', 'message.py Message.build: the opcode dispatch (0 Message, 1 Binary, 2 Text.from_payload, 3 Close.from_payload, 4 Ping, 5 Pong)',
+                    [('opcode', NAT)], [st], consts=OPC,
+                    rewrite={'return Binary(payload)': 'return 1', 'return Text.from_payload(payload)': 'return 2',
+                             'return Close.from_payload(payload)': 'return 3', 'return Ping(payload)': 'return 4',
+                             'return Pong(payload)': 'return 5', 'return Message(opcode)': 'return 0'})
+
+    @site('closeFromPayload')
+    def _():
+        c = klass(T['message'], 'Close')
+        init = [ast.unparse(x) for x in method(c, '__init__').body]
+        require(init[:2] == ['self.code = code', 'self.reason = reason'], 'Close.__init__ no longer stores code and reason')
+        return Site('closeFromPayload', 'message.py Close.from_payload; result = (code, reason) (utf8_valid = Utf8Validator().validate(..)[0], decode = bytes.decode(\'utf-8\'), none = UnicodeDecodeError)',
+                    [('payload', BYTES), ('utf8_valid', FN([BYTES], BOOL)), ('decode', FN([BYTES], OPT(STR)))],
+                    body_of(method(c, 'from_payload')), locals={'code': OPT(NAT)},
+                    unstructs={'cls._unpack16': unstruct_widths(klass(T['message'], 'Message'), '_unpack16')},
+                    externs={'utf8_valid(reason_bytes)': ('utf8_valid', ['reason_bytes'], None),
+                             "reason_bytes.decode('utf-8')": ('decode', ['reason_bytes'], 'UnicodeDecodeError')},
+                    rewrite={'(is_valid, _, _, _) = Utf8Validator().validate(reason_bytes)': 'is_valid = utf8_valid(reason_bytes)',
+                             'return cls(code, reason)': 'return (code, reason)'})
+
+    # ---- parser.py -------------------------------------------------------------------------------------
+    @site('readUntilCheckLength')
+    def _():
+        c = klass(T['parser'], '_ReadUntil')
+        return Site('readUntilCheckLength', 'parser.py _ReadUntil.check_length', [('max_bytes', OPT(NAT)), ('pos', INT)],
+                    body_of(method(c, 'check_length')), bind={'self.max_bytes': 'max_bytes'})
+
+    @site('feedReadUntil')
+    def _():
+        feed = method(klass(T['parser'], 'Parser'), 'feed')
+        chk = method(feed, '_check_length')
+        require([ast.unparse(x) for x in chk.body] == ['try:\n    self._awaiting.check_length(pos)\nexcept ParseError as error:\n    self._awaiting = self._gen.throw(error)'],
+                'Parser.feed._check_length no longer throws the ParseError of check_length into the parser')
+        loop = only([x for x in feed.body if isinstance(x, ast.While)], 'the while loop of Parser.feed')
+        require(ast.unparse(loop.test) == 'pos < len(data)', 'Parser.feed loop')
+        chain = only([x for x in loop.body if isinstance(x, ast.If)], 'the if chain of Parser.feed')
+        require(ast.unparse(chain.test) == 'isinstance(self._awaiting, _ReadBytes)' and len(chain.orelse) == 1
+                and isinstance(chain.orelse[0], ast.If) and ast.unparse(chain.orelse[0].test) == 'isinstance(self._awaiting, _ReadUntil)',
+                'Parser.feed: if isinstance(.., _ReadBytes) .. elif isinstance(.., _ReadUntil)')
+        b = chain.orelse[0].body
+        require([ast.unparse(x) for x in b[:4]] == ['chunk = data[pos:]', '_buffer.extend(chunk)', 'sep = self._awaiting.sep', 'sep_index = _buffer.find(sep)']
+                and len(b) == 5, 'Parser.feed: the _ReadUntil branch no longer extends the buffer and searches it before the length checks')
+        return Site('feedReadUntil', 'parser.py Parser.feed, awaiting _ReadUntil: the `if sep_index == -1:` statement (sep_index = _buffer.find(sep) after the chunk was appended, buffer_len = len(_buffer)); result = the length of the data sent to the parser, -1 = none yet',
+                    [('max_bytes', OPT(NAT)), ('sep_index', INT), ('sep_len', NAT), ('buffer_len', NAT)], [b[4]],
+                    prefix='sent = -1', outputs=['sent'],
+                    bind={'self._awaiting.max_bytes': 'max_bytes', 'len(sep)': 'sep_len', 'len(_buffer)': 'buffer_len'},
+                    calls={'_check_length(len(_buffer))': ('readUntilCheckLength', ['self._awaiting.max_bytes', 'len(_buffer)']),
+                           '_check_length(sep_index)': ('readUntilCheckLength', ['self._awaiting.max_bytes', 'sep_index'])},
+                    rewrite={'pos += len(chunk)': 'pass', 'data = _buffer[sep_index:]': 'pass',
+                             'self._awaiting = self._gen.send(_buffer[:sep_index])': 'sent = sep_index', 'del _buffer[:]': 'pass'})
 
     return sites
 
@@ -1058,6 +1645,16 @@ def doc_comment(site, used_binds):
         extra.append('  statement `%s` read as `%s`' % (k.replace('\n', ' ⏎ '), v))
     for k, (d, a) in sorted(site.calls.items()):
         extra.append('  `%s` is %s(%s)' % (k, d, ', '.join(a)))
+    for k, v in sorted(site.methods.items()):
+        extra.append('  `%s(..)` is %s' % (k, ' / '.join('%s(%s..)' % (d, ''.join(x + ', ' for x in lead)) for d, lead in v)))
+    for k, (f, a, exc) in sorted(site.externs.items()):
+        extra.append('  `%s` is the external function %s(%s)%s' % (k, f, ', '.join(a), '' if exc is None else '; none = it raised ' + exc))
+    for k, v in sorted(site.consts.items()):
+        if k in used_binds:
+            extra.append('  `%s` is %s' % (k, v[0]))
+    if site.trace:
+        extra.append('  last component of the result: reads (i) and writes (10 + i) of ' + ', '.join(
+            '%d = %s' % (i + 1, n) for i, n in enumerate(site.trace)) + ', in execution order')
     return '/-- %s\n%s\n```\n%s\n```\n-/\n' % (site.where, '\n'.join(extra), src)
 
 
